@@ -109,6 +109,15 @@ fold early"; the fold sites are counted as usual.  Still refuted: returning / co
 exception type, a guard on the accumulator or on `<= 0`, a guard that also rejects a zero *dividend* (first operand),
 the same guard in Sum / Sub / Mul; a guard that depends on the accumulator as well is undecided.
 
+Round 8 additions.  midnight(date) is also recognised in the keyword spelling `datetime(year=d.year, month=d.month,
+day=d.day[, hour=0 ..])` (c17_util.midnight_arg); a DirectCalendar lookup key that is neither midnight(date) nor a
+recognisably wrong spelling (the date itself, `.replace(..)`, `.date()`, a datetime(..) that keeps a time field) is
+undecided, not refuted.  units_nonnegative: a writer other than the constructor (or a private writer not only called by
+it) that validates and stores entry by entry - the RuntimeError guard and the store into the *live* table sit in the
+same loop - is refuted: a rejected definition has already changed the calendar (a loop into a local copy, or after a
+check of all values, is fine).  fold: the operator may be a local / module function of two parameters with guards and
+`return a OP b` / `return operator.itruediv(a, b)`; its zero-divisor RuntimeError is treated like the in-line F40 guard.
+
 The decision procedures evaluate the (loop free) blocks over finite abstract domains (see c17_util): unit values by
 sign class {None, <0, 0, >0}, dates by their position against a validity interval, direction in {-1, +1}.
 
@@ -116,7 +125,8 @@ Not decided: float arithmetic; a divisor *calendar* that yields 0 on some date (
 property only speaks of the number zero); time-of-day comparisons against day-precision bounds (the code's `<` / `>`
 are taken as "inside their validity", bounds included); FuncCalendar / apply; that the unit fields are only written by
 methods of their own class (R1, C06 territory); merge-vs-replace and override order of DirectCalendar.set_units;
-the meaning of `max_days <= 0`; a search with numbers other than 0 / 1 in it (`timedelta(hours=24)`) that is not in
+the meaning of `max_days <= 0`; date arithmetic that overflows datetime.min/max for huge horizons (C17-r83: the end of the
+search window computed eagerly - library range semantics, not a shape); a search with numbers other than 0 / 1 in it (`timedelta(hours=24)`) that is not in
 the armed shape ends UNDECIDED; chain flattening of `+ * /` (value preserving, not proved) ends UNDECIDED.
 
 Engine limitations worked around in rules/c17_util.py: `cfg.enclosing_fors` / `facts.guards_of` lose the loop binders
@@ -502,7 +512,8 @@ class _Deleg:
 def _fold_helper(ctx, f):
     """K.get_available_units = `return H(self.ops, date, op)` or `x = H(..); <tail over x>` with H holding the loop"""
     from sa.flow import subst
-    body = [st for st in f.body if not (isinstance(st, ast.Expr) and isinstance(st.value, ast.Constant))]
+    body = [st for st in f.body if not (isinstance(st, ast.Expr) and isinstance(st.value, ast.Constant))
+            and not isinstance(st, ast.FunctionDef)]          # a local operator function is read where it is used
     if not body:
         return None
     st = body[0]
@@ -606,6 +617,22 @@ class _Anchor:
 
     def __init__(self, node, it):
         self.node, self.iter, self.expanded = node, it, it
+
+
+def _callable_def(prog, f, fn, H):
+    """the package function a callable expression names: a def nested in f (or in the method that delegates to the fold
+    helper), or a module-level function of the same module"""
+    owner = f
+    if isinstance(fn, ast.Name) and H is not None and fn.id in H.sub:
+        fn, owner = H.sub[fn.id], H.tf
+    if not isinstance(fn, ast.Name):
+        return None
+    g = prog.funcs.get(owner.qual + '.' + fn.id)
+    if g is None:
+        g = prog.module_func(owner.module.name, fn.id)
+    if g is None or g.node.args.vararg or g.node.args.kwarg or g.node.args.kwonlyargs:
+        return None
+    return g
 
 
 def _field_iter(ctx, o, f, loop, K, H=None):
@@ -1248,6 +1275,7 @@ def _arith(ctx, o, orr, osb, f, K, d, pre, loop, tail, H=None):
                     this = (type(rhs.op), False)
                 elif same(rhs.right, accn) and same(rhs.left, v):
                     this = (type(rhs.op), True)
+            oc = None
             if this is None and isinstance(rhs, ast.Call) and len(rhs.args) == 2 and not rhs.keywords:
                 oc = _op_of_callable(rhs.func, H)
                 if oc is not None:
@@ -1255,6 +1283,37 @@ def _arith(ctx, o, orr, osb, f, K, d, pre, loop, tail, H=None):
                         this = (oc[0], oc[1])
                     elif same(rhs.args[1], accn) and same(rhs.args[0], v):
                         this = (oc[0], not oc[1])
+            if this is None and isinstance(rhs, ast.Call) and len(rhs.args) == 2 and not rhs.keywords and oc is None:
+                # the operator is a local / module function of two parameters: optional guards, then `return a OP b`
+                g = _callable_def(prog, f, rhs.func, H)
+                if g is not None and len(g.params) == 2 and (
+                        (same(rhs.args[0], accn) and same(rhs.args[1], v)) or (same(rhs.args[1], accn) and same(rhs.args[0], v))):
+                    flipped = same(rhs.args[1], accn)
+                    pa, pb = (g.params[1], g.params[0]) if flipped else (g.params[0], g.params[1])
+                    rg = run_block(g.body, Ev([(_e(pa), sa, 'sign'), (_e(pb), sv, 'sign')]), Expander(prog, g, ctx.typer))
+                    if rg.kind == 'raise':
+                        from sa.effects import exc_name
+                        if want is ast.Div and sv == 0 and exc_name(rg.stmt) == 'RuntimeError':
+                            zero_divisor_raises.setdefault(id(rg.stmt), (rg.stmt, set()))[1].add(sa)
+                            continue
+                        osb.refute(g, rg.stmt, rg.stmt, f"{K} leaves the fold early through `{g.name}` ({case}): "
+                                   + (f"a zero divisor is rejected with {exc_name(rg.stmt)}, expected RuntimeError" if want is ast.Div and sv == 0
+                                      else "later operands are ignored"))
+                        return
+                    if rg.kind == 'return' and rg.value is not None:
+                        rv_ = rg.value
+                        if isinstance(rv_, ast.BinOp):
+                            if _name(rv_.left, pa) and _name(rv_.right, pb):
+                                this = (type(rv_.op), False)
+                            elif _name(rv_.left, pb) and _name(rv_.right, pa):
+                                this = (type(rv_.op), True)
+                        elif isinstance(rv_, ast.Call) and len(rv_.args) == 2 and not rv_.keywords:
+                            oc2 = _op_of_callable(rv_.func, None)
+                            if oc2 is not None:
+                                if _name(rv_.args[0], pa) and _name(rv_.args[1], pb):
+                                    this = (oc2[0], oc2[1])
+                                elif _name(rv_.args[0], pb) and _name(rv_.args[1], pa):
+                                    this = (oc2[0], not oc2[1])
             if this is None and same(rhs, v):
                 osb.refute(f, st, st, f"{K} overwrites the accumulator with a later operand ({case}) instead of combining")
                 ok = False
@@ -2022,6 +2081,22 @@ def _delegated_writes(ctx, mf, field, kind):
     return out
 
 
+def _live_store(stmt, f, field):
+    """stmt writes into the object's own table (self.<field>[k] = v, self.<field> |= .., self.<field>.update(..)), not
+    into a local copy"""
+    me = f.params[0] if f.params else 'self'
+
+    def is_field(x):
+        return isinstance(x, ast.Attribute) and x.attr == field and _name(x.value, me)
+    if isinstance(stmt, ast.Assign):
+        return any(isinstance(t, ast.Subscript) and is_field(t.value) for t in stmt.targets)
+    if isinstance(stmt, ast.AugAssign):
+        return is_field(stmt.target) or (isinstance(stmt.target, ast.Subscript) and is_field(stmt.target.value))
+    if isinstance(stmt, ast.Expr) and isinstance(stmt.value, ast.Call) and isinstance(stmt.value.func, ast.Attribute):
+        return is_field(stmt.value.func.value)
+    return False
+
+
 def _nonneg(ctx):
     prog = ctx.prog
     o = ctx.ob('units_nonnegative', 'R3', "every unit value stored into calendar state (Weekly day table, Fixed units, Direct "
@@ -2139,6 +2214,13 @@ def _nonneg(ctx):
                 if not stores:
                     continue
                 ctor = mf.name == '__init__'
+                if not ctor and mf.name.startswith('__') and not mf.name.endswith('__'):
+                    # a private writer that only the constructor calls works on an object nobody can see yet
+                    callers = [m_ for m_ in list(ci.methods.values()) + list(ci.setters.values()) + list(ci.getters.values())
+                               if m_ is not mf and any(isinstance(c_, ast.Call) and isinstance(c_.func, ast.Attribute)
+                                                       and unmangle(c_.func.attr) == mf.name for c_ in walk_no_nested(m_.node))]
+                    if callers and all(m_.name == '__init__' for m_ in callers):
+                        ctor = True
                 for S in stores:
                     f, stmt, entries = S.func, S.stmt, S.entries
                     gs = U.guard_facts(prog, ctx.typer, f)
@@ -2246,6 +2328,19 @@ def _nonneg(ctx):
                             o.refute(f, stmt, stmt, f"{cls}.{f.name}: {r[1]}")
                         else:
                             o.undecided(f, stmt, stmt, f"{cls}.{f.name}: {r[1]}")
+                    if verdicts and not bad and not ctor and S.func is mf and not S.sub and _live_store(stmt, mf, field):
+                        # validated and stored entry by entry: the raise that rejects the definition sits in the same loop as
+                        # the store into the live table, so the entries before the offending one are already stored
+                        loops = U.fors_around(mf, stmt)
+                        cfg_ = cfg_of(mf)
+                        rs = [n for n in walk_no_nested(mf.node) if isinstance(n, ast.Raise) and cfg_.node_of(n) is not None
+                              and cfg_.is_reachable(cfg_.node_of(n)) and loops and any(x is loops[0] for x in U.fors_around(mf, n))]
+                        if rs:
+                            o.refute(mf, stmt, stmt, f"{cls}.{mf.name} validates and stores entry by entry (`{src(stmt)[:50]}` and "
+                                                     f"`{src(rs[0])[:40]}` are in the same loop): a definition rejected with RuntimeError "
+                                                     f"because of a negative value has already changed the calendar for the entries before it - "
+                                                     f"state is changed before validation is complete")
+                            continue
                     if verdicts and not bad:
                         o.site(f, stmt, f"{cls}.{unmangle(field)} <- " + ', '.join(v[1] for v in verdicts) + " proved >= 0")
     ctx.guarded(o, body)
@@ -2359,7 +2454,7 @@ def _bounded(ctx, o, cls, out_value, in_check):
                         for bound, other in ((c.left, c.comparators[0]), (c.comparators[0], c.left)):
                             if not (same(bound, S) or same(bound, E)) or _name(other, date):
                                 continue
-                            d0 = facts.is_midnight_of(other)
+                            d0 = U.midnight_arg(other)
                             md = match("$d.date()", other)
                             if (d0 is not None and _name(d0, date)) or (md and _name(md['d'], date)) or (
                                     isinstance(other, ast.Call) and isinstance(other.func, ast.Attribute) and other.func.attr == 'replace'
@@ -2499,7 +2594,7 @@ def _direct(ctx, o, field):
     F = _e(f"{f.params[0]}.{field}")
 
     def midnight_of(x, name):
-        d = facts.is_midnight_of(x)
+        d = U.midnight_arg(x)
         return d is not None and _name(d, name)
     good = True
     for member in (True, False):
@@ -2533,8 +2628,11 @@ def _direct(ctx, o, field):
             return
         for k in keys:
             if not midnight_of(k, date):
-                o.refute(f, r.stmt, k, f"DirectCalendar looks the date up as `{src(k)[:60]}`, expected midnight({date}): "
-                                       f"a query with a time of day misses the entry of its day")
+                if U.wrong_day_key(k, date):
+                    o.refute(f, r.stmt, k, f"DirectCalendar looks the date up as `{src(k)[:60]}`, expected midnight({date}): "
+                                           f"a query with a time of day misses the entry of its day")
+                else:
+                    o.undecided(f, r.stmt, k, f"DirectCalendar looks the date up as `{src(k)[:60]}`: not a recognised spelling of midnight({date})")
                 return
         if covered_both:
             break
